@@ -229,7 +229,10 @@ func decideOnVariants(pr *Prog, l *Ledger, open []*Obligation, id string, rs *ru
 	for _, v := range []struct {
 		name string
 		keep map[string]bool
-	}{{"unclaimed-helpers-inlined", claims}, {"all-helpers-inlined", nil}} {
+	}{{"unclaimed-helpers-inlined", claims}} {
+		// (A second variant with every helper inlined was tried and withdrawn: rules that hang an obligation on the call
+		// of a helper they know by role lose that obligation when the helper is inlined, so a real defect - mutant
+		// c11-peek-evicts-neighbour - passed on it.)
 		pv, err := loadProg(repo, arch)
 		if err != nil {
 			return nil
